@@ -57,3 +57,15 @@ package choquet
 //@ func (*ChoquetIntegralPreferenceFunc).Evaluate$1
 //@   property C03
 //@   ensures [is_choquet] result != nil && typeis(result.Evaluation, model.EvaluationSingleValue) && result.Alternative == *alternative
+
+// ---- registered names (what a request must say to select this object; what error messages list)
+//@ func (*ChoquetIntegralBiasListener).Identifier
+//@   property C07 C20
+//@   nopanic
+//@   ensures [name] result == "choquetIntegral"
+
+// ---- registered names (what a request must say to select this object; what error messages list)
+//@ func (*ChoquetIntegralPreferenceFunc).Identifier
+//@   property C03 C20
+//@   nopanic
+//@   ensures [name] result == "choquetIntegral"
